@@ -72,8 +72,9 @@ func Read(r io.ReaderAt) (*Info, error) {
 			Feature:   fmt.Sprintf("scaler type 0x%08x", scalerType),
 		}
 	}
-	if numTables > 280 {
-		// the largest value observed amongst the fonts on my laptop is 28
+	if numTables >= 1<<12 {
+		// The largest value observed amongst the fonts on my laptop is 28,
+		// but Write produces files with up to 4095 tables.
 		return nil, &parser.InvalidFontError{
 			SubSystem: "sfnt/header",
 			Reason:    "too many tables",
